@@ -5,7 +5,10 @@
 //   c03_hash      real hash_to_field (SHA-256 output passed to the model)
 //   c03_validate  real DZKPValidator::validate / validate_record under TestWorld malicious contexts:
 //                 honest batches, and one helper deviating in exactly one recorded / transmitted bit
-// (c03_lagrange / c03_proof live in hooks/ipa_prf.rs: they need the private malicious_security module.)
+//   c03_order     real MaliciousDZKPValidator in validate_record mode, real honest multiplications whose
+//                 intermediates are pushed in a scripted order (per batch, per gate, per helper), then validate_record
+// (c03_lagrange / c03_proof live in hooks/ipa_prf.rs: they need the private malicious_security module;
+//  c03_store / c03_vstore live in hooks/dzkp_validator.rs: they dump the private block vectors.)
 use std::iter::zip;
 
 use bitvec::prelude::{BitVec, Lsb0};
@@ -23,7 +26,7 @@ use crate::{
         RecordId,
         basics::SecureMul,
         context::{
-            Context, DZKPUpgradedMaliciousContext, TEST_DZKP_STEPS, UpgradableContext,
+            Context, DZKPContext, DZKPUpgradedMaliciousContext, TEST_DZKP_STEPS, UpgradableContext,
             dzkp_field::{DZKPBaseField, DZKPCompatibleField, TABLE_U, TABLE_V},
             dzkp_validator::{DZKPValidator, MultiplicationInputsBlock, Segment, SegmentEntry},
         },
@@ -542,5 +545,303 @@ fn verif_c03_validate() {
             out
         },
         exec_validate,
+    );
+}
+
+// ------------------------------------------------------------------------------------------- order
+//
+//   c03.order <ty> <count> <rpb> <gates> <seed> <script>[/<script>/<script>]
+//
+// The REAL `MaliciousDZKPValidator` in validate_record mode (`ctx.dzkp_validator(steps, rpb)`), real honest
+// multiplications (PRSS, channels) of `count` records under `gates` different steps — but the moment at which a
+// multiplication records its intermediates in the proof batch is scripted:
+//   <gate letter><record>   that multiplication pushes now   (a3 = gate "a", record 3)
+//   v<batch>                validate_record for every record of that batch, concurrently, awaited
+// One script for all helpers, or one per helper. Response: per helper one character per record
+// (`o` accepted, `f` DZKP validation failed, `e` other error, `-` never validated), helpers joined by `,`.
+
+const ORDER_GATES: [&str; 3] = ["a", "b", "c"];
+
+/// `zkp_multiply` minus its last step: the intermediates are returned instead of being pushed.
+async fn multiply_unpushed<const N: usize>(
+    ctx: DZKPUpgradedMaliciousContext<'_, NotSharded>,
+    record_id: RecordId,
+    a: &Replicated<Boolean, N>,
+    b: &Replicated<Boolean, N>,
+) -> Result<Vec<BitVec<u8, Lsb0>>, Error>
+where
+    Boolean: FieldSimd<N> + DZKPCompatibleField<N>,
+{
+    let role = ctx.role();
+    let (prss_left, prss_right) = ctx
+        .prss()
+        .generate::<(<Boolean as Vectorizable<N>>::Array, _), _>(record_id);
+    let z_left = a.left_arr().clone() * b.left_arr()
+        + a.left_arr().clone() * b.right_arr()
+        + a.right_arr().clone() * b.left_arr()
+        + &prss_left
+        - &prss_right;
+    ctx.send_channel::<<Boolean as Vectorizable<N>>::Array>(role.peer(Direction::Left))
+        .send(record_id, &z_left)
+        .await?;
+    let z_right: <Boolean as Vectorizable<N>>::Array = ctx
+        .recv_channel(role.peer(Direction::Right))
+        .receive(record_id)
+        .await?;
+    let z = Replicated::<Boolean, N>::new_arr(z_left, z_right);
+    Ok([
+        Boolean::as_segment_entry(a.left_arr()),
+        Boolean::as_segment_entry(a.right_arr()),
+        Boolean::as_segment_entry(b.left_arr()),
+        Boolean::as_segment_entry(b.right_arr()),
+        Boolean::as_segment_entry(&prss_left),
+        Boolean::as_segment_entry(&prss_right),
+        Boolean::as_segment_entry(z.right_arr()),
+    ]
+    .into_iter()
+    .map(|e| e.as_bitslice().to_bitvec())
+    .collect())
+}
+
+#[derive(Clone, Copy, Debug)]
+enum OrderTok {
+    Push(usize, usize),
+    Validate(usize),
+}
+
+fn parse_order_script(s: &str) -> Vec<OrderTok> {
+    s.split(',')
+        .map(|t| {
+            let (c, n) = t.split_at(1);
+            let n: usize = n.parse().expect("harness: script token");
+            match c {
+                "v" => OrderTok::Validate(n),
+                g => OrderTok::Push(ORDER_GATES.iter().position(|x| *x == g).expect("harness: gate letter"), n),
+            }
+        })
+        .collect()
+}
+
+async fn run_order<const N: usize>(count: usize, rpb: usize, ngates: usize, seed: u64, scripts: [Vec<OrderTok>; 3]) -> String
+where
+    Boolean: FieldSimd<N> + DZKPCompatibleField<N>,
+{
+    let mut rng = Rng(seed ^ 0xC03D);
+    let mut xs: [Vec<Replicated<Boolean, N>>; 3] = [vec![], vec![], vec![]];
+    let mut ys: [Vec<Replicated<Boolean, N>>; 3] = [vec![], vec![], vec![]];
+    for _ in 0..count {
+        let sx: [<Boolean as Vectorizable<N>>::Array; 3] =
+            std::array::from_fn(|_| SharedValueArray::from_fn(|_| Boolean::from(rng.bool())));
+        let sy: [<Boolean as Vectorizable<N>>::Array; 3] =
+            std::array::from_fn(|_| SharedValueArray::from_fn(|_| Boolean::from(rng.bool())));
+        for i in 0..3 {
+            xs[i].push(Replicated::new_arr(sx[i].clone(), sx[(i + 1) % 3].clone()));
+            ys[i].push(Replicated::new_arr(sy[i].clone(), sy[(i + 1) % 3].clone()));
+        }
+    }
+    let config = TestWorldConfig::default().with_seed(seed).with_timeout_secs(60);
+    let world = TestWorld::<NotSharded>::with_config(&config);
+    let futs = world
+        .malicious_contexts()
+        .into_iter()
+        .zip(zip(xs, ys))
+        .zip(scripts)
+        .map(|((ctx, (x, y)), script)| async move {
+            let v = ctx.set_total_records(count).dzkp_validator(TEST_DZKP_STEPS, rpb);
+            let m_ctx = v.context();
+            // phase 1: every multiplication runs to completion; nothing is recorded yet
+            let work = stream::iter(zip(x, y)).enumerate().map(|(i, (a, b))| {
+                let m_ctx = m_ctx.clone();
+                async move {
+                    let mut per_gate = vec![];
+                    for g in 0..ngates {
+                        let c = m_ctx.narrow(ORDER_GATES[g]);
+                        per_gate.push(if g % 2 == 0 {
+                            multiply_unpushed::<N>(c, RecordId::from(i), &a, &b).await?
+                        } else {
+                            multiply_unpushed::<N>(c, RecordId::from(i), &b, &a).await?
+                        });
+                    }
+                    Ok::<_, Error>(per_gate)
+                }
+            });
+            let done: Vec<Vec<Vec<BitVec<u8, Lsb0>>>> = match seq_join(m_ctx.active_work(), work).try_collect().await {
+                Ok(d) => d,
+                Err(e) => {
+                    // the validator holds nothing; report the error as this helper's outcome
+                    return format!("err:{}", canon(&format!("{e:?}")).replace([' ', ','], "_"));
+                }
+            };
+            // phase 2: the scripted reports and validations
+            let mut verdicts = vec!['-'; count];
+            for tok in script {
+                match tok {
+                    OrderTok::Push(g, r) => {
+                        let bvs = &done[r][g];
+                        let e = |i: usize| SegmentEntry::from_bitslice(&bvs[i]);
+                        m_ctx
+                            .narrow(ORDER_GATES[g])
+                            .push(RecordId::from(r), Segment::from_entries(e(0), e(1), e(2), e(3), e(4), e(5), e(6)));
+                    }
+                    OrderTok::Validate(k) => {
+                        let recs: Vec<usize> = (k * rpb..((k + 1) * rpb).min(count)).collect();
+                        let rs = futures::future::join_all(recs.iter().map(|&r| m_ctx.validate_record(RecordId::from(r)))).await;
+                        for (r, res) in zip(recs, rs) {
+                            verdicts[r] = match res {
+                                Ok(()) => 'o',
+                                Err(Error::DZKPValidationFailed | Error::ParallelDZKPValidationFailed) => 'f',
+                                Err(_) => 'e',
+                            };
+                        }
+                    }
+                }
+            }
+            drop(v);
+            verdicts.into_iter().collect::<String>()
+        })
+        .collect::<Vec<_>>();
+    futures::future::join_all(futs).await.join(",")
+}
+
+pub fn exec_order(req: &str) -> String {
+    let t: Vec<&str> = req.split(' ').collect();
+    let ty = t[1];
+    let count: usize = t[2].parse().unwrap();
+    let rpb: usize = t[3].parse().unwrap();
+    let ngates: usize = t[4].parse().unwrap();
+    let seed: u64 = t[5].parse().unwrap();
+    let parts: Vec<&str> = t[6].split('/').collect();
+    let scripts: [Vec<OrderTok>; 3] = match parts.len() {
+        1 => std::array::from_fn(|_| parse_order_script(parts[0])),
+        3 => std::array::from_fn(|i| parse_order_script(parts[i])),
+        n => panic!("harness: {n} scripts"),
+    };
+    macro_rules! go {
+        ($n:literal) => {
+            block_on_timeout(120, run_order::<$n>(count, rpb, ngates, seed, scripts))
+        };
+    }
+    let r = match ty {
+        "b1" => go!(1),
+        "ba3" => go!(3),
+        "ba8" => go!(8),
+        "ba20" => go!(20),
+        "ba64" => go!(64),
+        "ba256" => go!(256),
+        _ => panic!("harness: unknown type {ty}"),
+    };
+    match r {
+        Ok(s) => s,
+        Err(e) => e,
+    }
+}
+
+fn order_tok(g: usize, r: usize) -> String {
+    format!("{}{r}", ORDER_GATES[g])
+}
+
+/// all pushes of batch `b` (every gate), each gate's records in the order given by `perm(gate)`
+fn order_batch(rpb: usize, count: usize, ngates: usize, b: usize, mut perm: impl FnMut(usize, &mut Vec<usize>)) -> Vec<String> {
+    let mut out = vec![];
+    for g in 0..ngates {
+        let mut recs: Vec<usize> = (b * rpb..((b + 1) * rpb).min(count)).collect();
+        perm(g, &mut recs);
+        out.extend(recs.into_iter().map(|r| order_tok(g, r)));
+    }
+    out
+}
+
+#[test]
+fn verif_c03_order() {
+    run_suite_par(
+        "c03_order",
+        4,
+        |rng, thorough| {
+            let mut out = vec![];
+            // the smallest case: one batch of two records, one gate, record 1 reports first
+            out.push(format!("c03.order b1 2 2 1 {} a1,a0,v0", rng.below(1 << 30)));
+            out.push(format!("c03.order b1 2 2 1 {} a0,a1,v0", rng.below(1 << 30)));
+            let shapes: Vec<(&str, usize, usize, usize)> = vec![
+                // type, records per batch, total records (last batch partial where not a multiple), gates
+                ("ba3", 2, 4, 1), ("ba3", 4, 7, 2), ("ba8", 2, 5, 2), ("ba8", 4, 12, 3), ("ba8", 8, 11, 1),
+                ("ba64", 2, 3, 2), ("ba64", 4, 9, 1), ("ba256", 2, 4, 2), ("ba256", 4, 6, 1), ("b1", 8, 20, 2),
+                ("ba20", 4, 10, 2), ("ba8", 16, 33, 1),
+            ];
+            for (k, &(ty, rpb, count, ngates)) in shapes.iter().enumerate() {
+                let nb = count.div_ceil(rpb);
+                // (1) batch after batch; inside a batch every gate reports backwards
+                let mut s = vec![];
+                for b in 0..nb {
+                    s.extend(order_batch(rpb, count, ngates, b, |_, r| r.reverse()));
+                    s.push(format!("v{b}"));
+                }
+                out.push(format!("c03.order {ty} {count} {rpb} {ngates} {} {}", rng.below(1 << 30), s.join(",")));
+                // (2) batch after batch; every gate in its own random order, gates interleaved
+                let mut s = vec![];
+                for b in 0..nb {
+                    let mut pushes = order_batch(rpb, count, ngates, b, |_, r| rng.shuffle(r));
+                    if k % 2 == 0 {
+                        rng.shuffle(&mut pushes);
+                    }
+                    s.extend(pushes);
+                    s.push(format!("v{b}"));
+                }
+                out.push(format!("c03.order {ty} {count} {rpb} {ngates} {} {}", rng.below(1 << 30), s.join(",")));
+                // (3) everything is reported first (one global shuffle over batches and gates), then validated
+                let mut s: Vec<String> = (0..nb).flat_map(|b| order_batch(rpb, count, ngates, b, |_, _| ())).collect();
+                rng.shuffle(&mut s);
+                s.extend((0..nb).map(|b| format!("v{b}")));
+                out.push(format!("c03.order {ty} {count} {rpb} {ngates} {} {}", rng.below(1 << 30), s.join(",")));
+                // (4) the second record of every batch reports first, the rest in order; later batches report
+                //     before earlier ones; validation in batch order
+                if k % 3 == 0 || thorough {
+                    let mut s = vec![];
+                    for b in (0..nb).rev() {
+                        s.extend(order_batch(rpb, count, ngates, b, |_, r| {
+                            if r.len() > 1 {
+                                r.swap(0, 1);
+                            }
+                        }));
+                    }
+                    s.extend((0..nb).map(|b| format!("v{b}")));
+                    out.push(format!("c03.order {ty} {count} {rpb} {ngates} {} {}", rng.below(1 << 30), s.join(",")));
+                }
+                // (5) every helper has its own order
+                if k % 3 == 1 || thorough {
+                    let scripts: Vec<String> = (0..3)
+                        .map(|_| {
+                            let mut s = vec![];
+                            for b in 0..nb {
+                                let mut pushes = order_batch(rpb, count, ngates, b, |_, r| rng.shuffle(r));
+                                rng.shuffle(&mut pushes);
+                                s.extend(pushes);
+                                s.push(format!("v{b}"));
+                            }
+                            s.join(",")
+                        })
+                        .collect();
+                    out.push(format!("c03.order {ty} {count} {rpb} {ngates} {} {}", rng.below(1 << 30), scripts.join("/")));
+                }
+            }
+            if thorough {
+                for _ in 0..60 {
+                    let ty = *rng.pick(&["b1", "ba3", "ba8", "ba20", "ba64", "ba256"]);
+                    let rpb = 1usize << (1 + rng.usize_below(4));
+                    let nb = 1 + rng.usize_below(4);
+                    let count = (nb - 1) * rpb + 1 + rng.usize_below(rpb);
+                    let ngates = 1 + rng.usize_below(3);
+                    let mut s = vec![];
+                    for b in 0..nb {
+                        let mut pushes = order_batch(rpb, count, ngates, b, |_, r| rng.shuffle(r));
+                        rng.shuffle(&mut pushes);
+                        s.extend(pushes);
+                        s.push(format!("v{b}"));
+                    }
+                    out.push(format!("c03.order {ty} {count} {rpb} {ngates} {} {}", rng.below(1 << 30), s.join(",")));
+                }
+            }
+            out
+        },
+        exec_order,
     );
 }
